@@ -37,6 +37,18 @@ def configs(tier):
         cfg.update(var)
         cfg.update(fmg=1, fmg_it=2, fmg_cycle=0, abstol=-1.0, reltol=1e-12, maxit=60, indep=0)
         out.append(cfg)
+    if tier != "thorough":
+        # the uncached give paths (coefficients / geometry recomputed at every use) on one triple per geometry x problem
+        k = 0
+        for geom, prob in itertools.product((0, 1, 2), (0, 1, 2)):
+            alpha, beta = c01.PROFILES[1 + (k % 6)]
+            for var in (dict(strat=1, cc=0, cg=0), dict(strat=1, cc=0, cg=1), dict(strat=1, cc=1, cg=0)):
+                for extr in (0, 1):
+                    cfg = c01.base(geom, prob, alpha, beta, k % 2, 1, extr, 0)
+                    cfg.update(var)
+                    cfg.update(fmg=1, fmg_it=2, fmg_cycle=0, abstol=-1.0, reltol=1e-12, maxit=60, indep=0)
+                    out.append(cfg)
+            k += 1
     return out
 
 
